@@ -9,22 +9,20 @@
    OrderViolation; destroyed with an application reference outstanding is DestroyedWhileHeld.
    [fixed = false] is lib/ as found, [fixed = true] is lib/ with fixes/C04-connection-lifecycle.patch.
 
-   What is proved, and what is not:
+   What is proved:
    * the code as found violates the property (five witnesses, replayed on the real library under ASan);
-   * for the repaired code, every library entry point that runs application callbacks
-     (unref, disconnect, the re-run job, event/response send, request dispatch incl. the msg_process loop, the
-     liveliness callback) preserves the life-cycle invariant GI - from EVERY state satisfying it, under EVERY
-     context of enclosing frames, for EVERY application whose callbacks satisfy the contract [cb_ok]
-     (they may do anything that itself preserves GI) - and never reaches an error state about a connection;
-     the contract holds of applications whose callbacks do not re-enter the library ([invoke ... 0]).
-   * NOT proved (hence the suffix _partial): that [invoke] at nesting depth n+1 satisfies [cb_ok] (which needs the
-     same lemma for handle_new_connection, the list walks of qb_ipcs_destroy / iteration and
-     qb_ipcs_request_rate_limit), and therefore the closed statement over [run] for all histories; errors about the
-     SERVICE object (ServiceUseAfterFree) are let through by [safe].  Those parts are covered by the
-     correspondence run and the monitor only. *)
+   * for the repaired code: every library entry point preserves the life-cycle invariant GI (connections AND the
+     service object) from every state satisfying it, under every context of enclosing frames, for every application
+     whose callbacks satisfy the contract [cb_ok]; the callback interpreter [invoke] satisfies the contract at every
+     nesting depth (induction on the depth); hence for ALL histories no error state is reachable - [safe] admits no
+     Fail at all: no use after free of a connection or of the service, no refcount underflow, no callback out of
+     order, no destroyed while the application holds a reference - and GI holds at the end ([C04_lifecycle]).
+   The entry-point theorems keep their earlier names (suffix _partial: each is one part of the whole); the whole is
+   C04_lifecycle (incl. the trace invariant TI) / C04_final_state_facts / C04_service_facts. *)
 From Coq Require Import ZArith List Bool.
 Require Import Verif.gen.Consts_ipclife.
-Require Import Verif.IpcLifeModel Verif.IpcLifeProofs Verif.IpcLifeProofs2 Verif.IpcLifeProofs3 Verif.IpcLifeProofs4.
+Require Import Verif.IpcLifeModel Verif.IpcLifeProofs Verif.IpcLifeProofs2 Verif.IpcLifeProofs3 Verif.IpcLifeProofs4
+               Verif.IpcLifeProofs5 Verif.IpcLifeProofs6 Verif.IpcLifeProofs7 Verif.IpcLifeTrace.
 Import ListNotations.
 Local Open Scope Z_scope.
 
@@ -68,7 +66,7 @@ Print Assumptions C04_fixed_on_witnesses.
 
 (* the invariant is met by the initial state (non-vacuity of the hypotheses below) and the callback contract by
    every application whose callbacks do not re-enter the library *)
-Example C04_example_initial_state : GI (fun _ => 0) (fun _ => 0) (fun _ => false) world0.
+Example C04_example_initial_state : GI Z0f Z0f Ff world0.
 Proof. exact GI_world0. Qed.
 Print Assumptions C04_example_initial_state.
 Example C04_example_contract_met : forall shm, cb_ok (invoke shm true 0).
@@ -78,38 +76,98 @@ Print Assumptions C04_example_contract_met.
 (* qb_ipcs_connection_unref of a reference the calling frame holds: refcount accounting is kept; when the count
    reaches zero the destroyed callback is legal (not after destroyed, not while a closed re-run is owed, no
    application reference left), the object is unlinked first and freed last *)
-Theorem C04_unref_partial : forall cb, cb_ok cb -> forall H J D c w,
+Theorem C04_unref_partial : forall cb, cb_ok cb -> forall H J (D : dctx) c w,
   GI (addf H c 1) J D w -> 0 <= H c -> safe (fun w' _ => GI H J D w') (conn_unref cb c w).
 Proof. exact unref_held_ok. Qed.
 Print Assumptions C04_unref_partial.
 
 (* qb_ipcs_disconnect from any state of a live connection, from inside or outside any callback *)
-Theorem C04_disconnect_partial : forall cb, cb_ok cb -> forall H J D c w,
+Theorem C04_disconnect_partial : forall cb, cb_ok cb -> forall H J (D : dctx) c w,
   GI H J D w -> live (conns w c) -> safe (fun w' _ => GI H J D w') (disconnect true cb c w).
 Proof. exact disconnect_ok. Qed.
 Print Assumptions C04_disconnect_partial.
 
 (* the queued re-run of connection_closed *)
-Theorem C04_closed_rerun_partial : forall cb, cb_ok cb -> forall H J D c t w,
+Theorem C04_closed_rerun_partial : forall cb, cb_ok cb -> forall H J (D : dctx) c t w,
   GI H J D w -> jobs w = c :: t -> safe (fun w' _ => GI H J D w') (job_run true cb c (set_jobs t w)).
 Proof. exact job_run_ok. Qed.
 Print Assumptions C04_closed_rerun_partial.
 
 (* qb_ipcs_event_send / qb_ipcs_response_send on a live connection *)
-Theorem C04_send_partial : forall cb, cb_ok cb -> forall H J D c w,
+Theorem C04_send_partial : forall cb, cb_ok cb -> forall H J (D : dctx) c w,
   GI H J D w -> live (conns w c) -> safe (fun w' _ => GI H J D w') (srv_send cb c w).
 Proof. exact srv_send_ok. Qed.
 Print Assumptions C04_send_partial.
 
 (* qb_ipcs_dispatch_connection_request: HUP, flow control, the msg_process loop with callbacks that disconnect,
    destroy, take and drop references; both transports *)
-Theorem C04_dispatch_partial : forall cb, cb_ok cb -> forall shm H J D c hup w,
+Theorem C04_dispatch_partial : forall cb, cb_ok cb -> forall shm H J (D : dctx) c hup w,
   GI H J D w -> live (conns w c) -> c_st (conns w c) = ESTABLISHED ->
   safe (fun w' _ => GI H J D w') (dispatch shm true cb c hup w).
 Proof. exact dispatch_ok. Qed.
 Print Assumptions C04_dispatch_partial.
 
-Theorem C04_liveliness_partial : forall cb, cb_ok cb -> forall H J D c w,
+Theorem C04_liveliness_partial : forall cb, cb_ok cb -> forall H J (D : dctx) c w,
   GI H J D w -> live (conns w c) -> safe (fun w' _ => GI H J D w') (liveliness true cb c w).
 Proof. exact liveliness_ok. Qed.
 Print Assumptions C04_liveliness_partial.
+
+(* ---------------------------------------------------------------------------------------------------------------
+   The closing induction (increment 1).  The callback interpreter satisfies the contract at EVERY nesting depth
+   (induction on the depth; the nested library calls made by a callback's actions are the recursive case) ... *)
+Theorem C04_callback_contract_all_depths : forall shm n, cb_ok (invoke shm true n).
+Proof. exact invoke_ok. Qed.
+Print Assumptions C04_callback_contract_all_depths.
+
+(* ... hence, for ALL histories (connects incl. refusals and clients that vanish during the handshake, requests, client
+   disconnects/deaths, main-loop turns, queued jobs, application actions outside and - through ALL behaviour tables -
+   inside every callback, to every nesting depth), on both transports: the run ends in NO error state
+   (UseAfterFree of a connection, ServiceUseAfterFree, RefUnderflow, ServiceRefUnderflow, OrderViolation = a callback out
+   of the order accept created msg* closed+ destroyed, DestroyedWhileHeld, TransportGone, OutOfFuel) and the invariant
+   holds at the end. *)
+Theorem C04_lifecycle : forall shm depth ops,
+  exists w z, run shm true depth ops world0 = Ok w z /\ GI0 w /\ TI w.
+Proof. exact lifecycle_all. Qed.
+Print Assumptions C04_lifecycle.
+
+(* TI w: for every connection c, running the order automaton [phase_step] (accept created msg* closed(<>0)* closed(0)
+   destroyed, tail optional; no destroyed while a closed re-run is owed; nothing after destroyed) over ALL callback
+   events logged for c, oldest first from its allocation, never gets stuck and ends in c's current phase:
+   [tphs (log w) c = Some (c_ph (conns w c))].  Together with C04_final_state_facts (phase PDead <=> freed, refcount of
+   a live connection = connected + application references + queued re-runs >= 1) this is "destroyed exactly once, exactly
+   when the last reference is dropped, nothing afterwards".  Example: what the automaton accepts and rejects. *)
+Example C04_trace_automaton_example :
+  tphs [ECb KDestroyed 0%nat 0; ECb KClosed 0%nat 0; ECb KClosed 0%nat 1; ECb KMsg 0%nat 0; ECb KCreated 0%nat 0;
+        ECb KAccept 0%nat 0; ENew 0%nat] 0%nat = Some PDead /\
+  tphs [ECb KMsg 0%nat 0; ECb KClosed 0%nat 0; ECb KCreated 0%nat 0; ECb KAccept 0%nat 0; ENew 0%nat] 0%nat = None /\
+  tphs [ECb KDestroyed 0%nat 0; ECb KClosed 0%nat 1; ECb KCreated 0%nat 0; ECb KAccept 0%nat 0; ENew 0%nat] 0%nat = None /\
+  tphs [ECb KClosed 0%nat 0; ECb KAccept 0%nat 0; ENew 0%nat] 0%nat = None.
+Proof. exact trace_example. Qed.
+Print Assumptions C04_trace_automaton_example.
+
+(* log and ghost phases stay consistent in the code as found as well (so the refutation witnesses are statements about
+   callback traces, not about a ghost variable) *)
+Theorem C04_trace_consistent_any_variant : forall shm fixed depth ops,
+  match run shm fixed depth ops world0 with Ok w _ => TI w | Fail _ _ => True end.
+Proof. exact trace_consistent_any_variant. Qed.
+Print Assumptions C04_trace_consistent_any_variant.
+
+(* what the invariant says of every connection between operations: allocated <=> not destroyed; refcount = (1 while
+   connected) + application references + queued closed re-runs, at least 1; destroyed => freed, no application
+   reference, unregistered, off the list, no job queued *)
+Theorem C04_final_state_facts : forall w c, GI0 w ->
+  let x := conns w c in
+  (c_alloc x = true -> live x /\ c_rc x = init_of (c_st x) + c_uref x + cnt c (jobs w) /\ 1 <= c_rc x /\ c_st x <> ACTIVE) /\
+  (c_alloc x = false -> c_ph x = PNone \/ c_ph x = PDead) /\
+  (c_ph x = PDead -> c_alloc x = false /\ c_uref x = 0 /\ c_reg x = false /\ mem_id c (s_list w) = false /\ cnt c (jobs w) = 0).
+Proof. intros w c G. exact (CI_top_facts _ _ _ (proj1 G c)). Qed.
+Print Assumptions C04_final_state_facts.
+
+(* the service object: freed only when the creator's reference is gone AND no connection object is left; while it is
+   allocated its count covers the creator's reference and one per allocated connection *)
+Theorem C04_service_facts : forall w, GI0 w ->
+  (s_alloc w = false -> s_creator w = false /\ forall c, c_alloc (conns w c) = false) /\
+  (s_alloc w = true -> 1 <= s_rc w /\ (if s_creator w then 1 else 0) + nalloc w <= s_rc w) /\
+  (destroy_called w = false -> s_creator w = true /\ s_alloc w = true).
+Proof. exact service_facts. Qed.
+Print Assumptions C04_service_facts.
